@@ -154,7 +154,7 @@ struct NameState {
 struct StreamState {
     sub_inst: Option<usize>,
     sub: String,
-    max_out: i32,
+    max_out: i64,
     open: bool,
     ended: Option<Option<i32>>,
     aborted: bool,
@@ -1220,7 +1220,7 @@ impl<'a> Model<'a> {
                         st.open = true;
                     } else {
                         st.ended = Some(Some(code));
-                        if !(0..=65_535).contains(max_out) && code != 3 {
+                        if !(0..=65_535i64).contains(max_out) && code != 3 {
                             let exists = self.sub_definite(sub).is_some();
                             if exists {
                                 self.v("stream_limit_not_rejected", &["C17"], format!("StreamingPull(max_outstanding_messages={}) on {} answered code {}", max_out, sub, code));
